@@ -9,6 +9,7 @@ SPEC = {
         "cells hold abstract values (0 = as created); what a search / an evaluation leaves in the cells it can write is an arbitrary function, constrained only by the bitmap-guard invariant (a rule/pattern bit is only set together with the list entry / hash-map key that reset() tests); the invariant is checked on every digest the implementation produced",
         "caches (regexp caches, base64 engines, retained PatternMatches keys/capacity, namespace keys) and scratch (VM thread lists, WASM variable area) are excluded from the visible state: their transparency is not proved here (the probe results compared by the harness would expose a non-transparent cache)",
         "the sets eval_writes / search_writes (which cells evaluation and search can modify) are written by hand from the code; the persistent cells are outside them by inspection",
+        "scan-scoped per-thread caches (hash, math) are dropped lazily, on the first access during a scan with a new id; the model drops them when the id is renewed: equivalent because the generated fact tl_scan_scoped includes that every access is preceded by the check",
         "results are a function of the visible state at the end of the prologue and of the probe input (no other hidden state: thread-locals outside lib/src/modules, process-wide statics other than the heartbeat counter)",
     ],
     "trusted_base": ["Gen/ScanState.v: field lists, creation-time values, reset() body, scan_impl / blocks::Scanner::{scan,finish} / From<Scanner> bodies, module thread-locals and whether main clears them, regenerated from lib/src/scanner/*.rs, lib/src/wasm/mod.rs, lib/src/modules/**",
@@ -39,13 +40,15 @@ MANIFEST = {
                    "thread-local list are regenerated from the Rust source on every run: for every history of API calls (scans with any outcome, "
                    "option setters, set_global, set_module_output, conversion to a block scanner, block scans, other scanners on the thread) and "
                    "every effect the scans may have had, a contiguous probe starts its evaluation from the same visible state as on a fresh "
-                   "scanner carrying only the persistent options; for block mode the same is proved for all cells except four that are proved to "
-                   "leak (refutation lemmas with witnesses, re-found on the implementation). The model's prologue is compared with the "
+                   "scanner carrying only the persistent options - for contiguous and for block mode, for rules whose modules keep only scan-scoped "
+                   "per-thread caches; for other rules the same is proved for every cell except the per-thread caches that are not scan-scoped, "
+                   "which are proved to leak (refutation lemma with witnesses, re-found on the implementation). The model's prologue is compared with the "
                    "implementation's state digests on generated histories, and the probe results of used vs fresh scanners are compared directly."),
     "level_note": ("Trusted: Coq kernel, translator gen_scanstate.py, harness, the hand-written classification table and write-sets. The proof is about "
                    "the state the evaluation starts from, not about the evaluation itself; transparency of caches is assumed (and exercised by the "
-                   "differential probe comparison). Six known findings are reported (state surviving into block mode, user-supplied outputs vs "
-                   "per-thread caches / module errors, snippets after a failed finish)."),
+                   "differential probe comparison). Six defects found by this check were repaired (state surviving into block mode, "
+                   "hash/math caches, module errors vs user-supplied outputs, snippets after a failed finish); two known findings remain, both "
+                   "about per-thread module state that is not scan-scoped (pe, elf, macho, dex, crx, magic, cuckoo)."),
     "technique": "Coq proof over a source-generated state model + differential correspondence on state digests (vm_compute) + used-vs-fresh probe comparison",
     "design_ref": "DESIGN.md section 4, C04",
 }
